@@ -258,6 +258,49 @@ def check(repo: Repo, run: Run) -> None:
     # S2 -----------------------------------------------------------------
     n = opchain.check_chains(repo, run, "C03.S2", LEVELS)
     run.floor("C03.S2", n, 36)
+    # T4: a node that carries an operator applies it.  In the rule methods of the operator levels the text of a child
+    # (or of a grandchild) may be taken over unchanged only in the one-child form; on a path with an operator child the
+    # generated text must be built (template / call), otherwise the operator - with its range check, its refusal of a
+    # uint, its error - runs in the interpreter only (`- -x`, `!!x` folded away).
+    from ..core.paths import PathWalker, flat_conds
+
+    p1cls = ev.cls("Phase1Transpiler")
+    n4 = 0
+    for mname in ("expr", "conditionalor", "conditionaland", "relation", "addition", "multiplication", "unary"):
+        fn4 = P1.get(mname)
+        if fn4 is None:
+            continue
+        tparam = fn4.args.args[1].arg if len(fn4.args.args) > 1 else "tree"
+        try:
+            paths4 = PathWalker(ev, p1cls).paths(fn4)
+        except OverflowError:
+            run.inconclusive("C03.T4", f"Phase1Transpiler.{mname}", "too many paths")
+            continue
+        n4 += 1
+        bad4 = None
+        for pth in paths4:
+            stored = pth.env.get(f"{tparam}.transpiled")
+            if stored is None:
+                continue
+            one = False
+            many = False
+            for t, pol in flat_conds(pth.conds):
+                if isinstance(t, ast.Compare) and len(t.ops) == 1 and ast.unparse(strip_cast(t.left)) == f"len({tparam}.children)" and isinstance(t.comparators[0], ast.Constant):
+                    k = t.comparators[0].value
+                    if isinstance(t.ops[0], ast.Eq):
+                        one = one or (pol and k == 1)
+                        many = many or (pol and k > 1) or (not pol and k == 1)
+            v = strip_cast(stored)
+            if many and not one and isinstance(v, ast.Attribute) and v.attr == "transpiled":
+                bad4 = (pth, v)
+                break
+        if bad4:
+            run.ob("C03.T4", f"Phase1Transpiler.{mname}|operator applied", False,
+                   f"{mname}: on the path `{bad4[0].cond_text()[:110]}` (a node with an operator) the generated text is `{ast.unparse(bad4[1])[:70]}` taken over unchanged: "
+                   "the operator is not applied in compiled code, so its overflow / type error exists in the interpreter only", ev.loc(fn4))
+        else:
+            run.ob("C03.T4", f"Phase1Transpiler.{mname}|operator applied", True, f"{mname}: child text is passed through only in the one-child form", ev.loc(fn4))
+    run.floor("C03.T4", n4, 6)
     # T1 / T2 ------------------------------------------------------------
     tmpls = templates.find_templates(repo)
     nt = 0
